@@ -34,12 +34,15 @@ def l2_rk_poly(run, rng, quick):
     for m in methods:
         mps = Mps.random(model, 0, 4, 1.0).to_complex()
         mps.compress_config = CompressConfig(CompressCriteria.fixed, max_bonddim=8)
-        ec = EvolveConfig(EvolveMethod.prop_and_compress_tdrk, adaptive=False)
+        pair = len(rk.RungeKutta(m).order) == 2
+        # embedded pairs are only accepted by the adaptive branch: one step, accepted whatever the error estimate
+        ec = (EvolveConfig(EvolveMethod.prop_and_compress_tdrk, adaptive=True, guess_dt=0.3, adaptive_rtol=1e6) if pair
+              else EvolveConfig(EvolveMethod.prop_and_compress_tdrk, adaptive=False))
         ec.rk_config = rk.RungeKutta(m)
         mps.evolve_config = ec
         psi0 = mps.todense().ravel() * mps.coeff
         dt = 0.3
-        new = mps.evolve(mpo, dt)
+        new = mps.evolve(mpo, dt, normalize=False)
         psi = new.todense().ravel() * new.coeff
         ref = np.zeros_like(psi0)
         term = psi0.copy()
